@@ -186,6 +186,22 @@ impl Drop for Child {
     }
 }
 
+/// Forking is only safe while no other thread of this process is around (not even one that is
+/// on its way out): wait, bounded, until /proc/self/task lists a single thread.
+pub fn wait_until_single_threaded(limit: Duration) -> bool {
+    let t0 = Instant::now();
+    loop {
+        let n = std::fs::read_dir("/proc/self/task").map(|d| d.count()).unwrap_or(1);
+        if n <= 1 {
+            return true;
+        }
+        if t0.elapsed() > limit {
+            return false;
+        }
+        std::thread::sleep(Duration::from_micros(100));
+    }
+}
+
 /// Fork a child that runs `f` with a writer for its report and then `_exit`s with f's return value.
 /// The caller must be single-threaded (or `f` must restrict itself to async-signal-safe work plus
 /// whatever the harness knows is safe: no locks held by other threads at fork time).
